@@ -605,7 +605,10 @@ def r119(facts, res):
             else:
                 res.bad(R, key, loc_of(b, bb), 'the text is cut with Regex::split on `%s`, which matches one character: two separators in a row produce an empty piece that is then '
                         'treated as a name (`%%s a  b` is rejected as "invalid start state name" although names are separated by one OR MORE blanks)' % lit, {'function': b.path})
-    res.floor(R, 'Regex::split calls in the lex parser', n, 1)
+    if n == 0:
+        res.ok(R, 'no-regex-split', '', 'the lex parser no longer cuts lines with Regex::split: nothing to guard (the empty pieces such a split yields do not arise)')
+    else:
+        res.count(R + ' Regex::split calls in the lex parser', n)
 
 
 def r1110(facts, res):
